@@ -8,5 +8,5 @@ cd harness
 go build ./...
 go vet ./internal/... >/dev/null 2>&1 || true
 go test -c -vet=off -o /dev/null ./wire/
-cd .. && ./check C20 build && ./check C13 build && ./check C15 build
+cd .. && ./check C20 build && ./check C13 build && ./check C15 build && ./check C04 build
 echo setup ok
